@@ -21,7 +21,7 @@ impl NetflowParser {
 //@   ensures: final(self).allowed_versions == old(self).allowed_versions
 //@   ensures: pviews_eq(pviews(out@), spec_pb(state_of(*old(self)), old(self).allowed_versions@, packet@).0)
 //@   ensures: state_of(*final(self)) == spec_pb(state_of(*old(self)), old(self).allowed_versions@, packet@).1
-//@   before "let mut results = vec![];": broadcast use lemma_cloned_u8; broadcast use lemma_subres_eq;
+//@   beforeloop 0: broadcast use lemma_cloned_u8; broadcast use lemma_subres_eq;
 //@       let ghost st0 = state_of(*self); let ghost al = self.allowed_versions@; let ghost av = self.allowed_versions;
 //@       proof { assert(packet@.subrange(0, packet@.len() as int) =~= packet@); assert(pviews(Seq::<NetflowPacket>::empty()) =~= Seq::<PView>::empty()); }
 //@   loop 0: invariant_except_break
@@ -34,8 +34,8 @@ impl NetflowParser {
 //@           pviews(results@) == spec_pb(st0, al, packet@).0,
 //@           state_of(*self) == spec_pb(st0, al, packet@).1,
 //@       decreases packet@.len() - offset
-//@   before "match self.parse_packet_by_version(current)": let ghost stk = state_of(*self); let ghost res0 = results@;
-//@       proof { assert(current@ == packet@.subrange(offset as int, packet@.len() as int)); }
+//@   loopstart 0: let ghost stk = state_of(*self); let ghost res0 = results@;
+//@   before "match self.parse_packet_by_version(current)": proof { assert(current@ == packet@.subrange(offset as int, packet@.len() as int)); }
 //@   after "results.push(parsed_netflow.result);": proof {
 //@       let pk = parsed_netflow.result;
 //@       let rem = parsed_netflow.remaining@;
